@@ -67,13 +67,19 @@ def main(tier, seed, replay=None):
                 if code is None:
                     viol.append((case, f"server status {arm['status']} not understood"))
                     continue
-                got = c04.eval_readback(pr, code, "application/json")
+                # the media type the server's arm produces: a raw String goes out as text/plain, raw bytes as
+                # application/octet-stream (axum's IntoResponse for those types), anything else as JSON
+                ptype = next(((v.get("payload") or "").replace(" ", "") for v in s["enums"].get(en, []) if v["name"] == arm["variant"]), "")
+                sent_ct = "application/json"
+                if arm.get("encoder") == "data":
+                    sent_ct = "text/plain; charset=utf-8" if ptype == "String" else "application/octet-stream"
+                got = c04.eval_readback(pr, code, sent_ct)
                 key = cvk.get(arm["variant"], "?")
                 # the server encodes payloads as JSON: where JSON is one of the media types declared for the key, the
                 # client must decode a JSON response of that status with its JSON decoder
                 decl = dict(next((cc for k, cc in case if k == key), []))
                 jsonish = [ct for ct, sc in decl.items() if c04.DECODER_OF_CT.get(ct) == "json" and sc is not None]
-                if got == arm["variant"] and jsonish:
+                if got == arm["variant"] and jsonish and sent_ct == "application/json":
                     gcase = c04.eval_readback_case(pr, code, jsonish[0])
                     fam = (gcase.get("payload") or "").split(":")[0]
                     if gcase.get("variant") == arm["variant"] and fam and fam != "json":
@@ -87,10 +93,11 @@ def main(tier, seed, replay=None):
                         known_hits.add("default-sent-as-200")
                     elif re.fullmatch(r"\dXX", key) and str(code) in keys:
                         known_hits.add("range-sent-as-representative")
-                    elif any(b["body"]["kind"] == "dispatch" for b in pr["handlers"]):
-                        known_hits.add("payload-always-json")   # server sends JSON, client dispatches on the declared media type
+                    elif sent_ct == "application/json" and any(b["body"]["kind"] == "dispatch" for b in pr["handlers"]):
+                        # xml / event-stream / a second JSON-like media type: still sent as plain application/json
+                        known_hits.add("payload-always-json")
                     else:
-                        viol.append((case, f"server sends variant {arm['variant']} (key {key}) with status {code}; client parses it as {got}"))
+                        viol.append((case, f"server sends variant {arm['variant']} (key {key}) with status {code} as {sent_ct}; client parses it as {got}"))
         # model/implementation agreement on the composition (client variant for each sent status)
         if mp is not None:
             sent = [k for k, _ in case]
@@ -242,6 +249,14 @@ LOOP_SPEC = {"openapi": "3.1.0", "info": {"title": "loop", "version": "1"}, "pat
                        "responses": {"200": {"description": "ok", "content": {"application/json": {"schema": {"$ref": "#/components/schemas/Echo"}}}}}}},
     # optional query parameters whose schemas carry a default (absent must arrive absent) and a discriminated
     # body whose mapping names every member twice (each tag must be accepted in both directions)
+    # text and binary responses (the server writes them in their declared media type, the client reads them back)
+    "/note": {"get": {"operationId": "get_note", "parameters": [{"name": "X-Want", "in": "header", "schema": {"type": "string"}}],
+                      "responses": {"200": {"description": "ok", "content": {"text/plain": {"schema": {"type": "string"}}}},
+                                    "202": {"description": "acc", "content": {"application/octet-stream": {"schema": {"type": "string", "format": "binary"}}}},
+                                    "404": {"description": "nf", "content": {"application/json": {"schema": {"$ref": "#/components/schemas/Echo"}}}}}}},
+    # a required path parameter whose pattern admits the empty string: a value the client lets through must reach the handler
+    "/articles/{slug}": {"get": {"operationId": "get_article", "parameters": [{"name": "slug", "in": "path", "required": True, "schema": {"type": "string", "pattern": "^[a-z0-9-]*$"}}],
+                                 "responses": {"200": {"description": "ok", "content": {"application/json": {"schema": {"$ref": "#/components/schemas/Echo"}}}}, "404": {"description": "nf"}}}},
     "/pets": {"post": {"operationId": "adopt_pet", "parameters": [{"name": "page", "in": "query", "schema": {"type": "integer", "default": 20}},
                                                                     {"name": "sort", "in": "query", "schema": {"type": "string", "enum": ["name", "price"], "default": "name"}},
                                                                     {"name": "note", "in": "query", "schema": {"type": "string", "default": "none"}},
@@ -278,6 +293,16 @@ impl S::ApiServer for Svc {
             S::Pet::Dog(d) => S::Pet::Cat(S::Cat { pet_type: if d.pet_type == S::DogPetType::Hound { S::CatPetType::Feline } else { S::CatPetType::Cat }, lives: Some(d.bark.map(|b| b.len() as i64).unwrap_or(-1)) }),
         }))
     }
+    async fn get_note(&self, request: S::GetNoteRequest) -> anyhow::Result<S::GetNoteResponse> {
+        Ok(match request.header.x_want.as_deref() {
+            Some("bin") => S::GetNoteResponse::Accepted(vec![0u8, 1, 2, 255, 10, 13]),
+            Some("nf") => S::GetNoteResponse::NotFound(S::Echo { seen: Some("nf".to_string()) }),
+            _ => S::GetNoteResponse::Ok("plain \u{fc} \"quoted\"\nline".to_string()),
+        })
+    }
+    async fn get_article(&self, request: S::GetArticleRequest) -> anyhow::Result<S::GetArticleResponse> {
+        Ok(S::GetArticleResponse::Ok(S::Echo { seen: Some(format!("slug={:?}", request.path.slug)) }))
+    }
     async fn restart_job(&self, request: S::RestartJobRequest) -> anyhow::Result<S::RestartJobResponse> {
         if request.path.job_id == "busy" { return Ok(S::RestartJobResponse::Conflict); }
         Ok(S::RestartJobResponse::Accepted(S::Echo { seen: Some(format!("job={:?} reason={:?}", request.path.job_id, request.body.map(|b| b.reason))) }))
@@ -302,6 +327,14 @@ fn main() {
         println!("5\t{:?}", client.find_items(r).await.map_err(|e| format!("{:#}", e)));
         let mut r = C::FindItemsRequest::default(); r.query.q = "\u{fc}".to_string();
         println!("6\t{:?}", client.find_items(r).await.map_err(|e| format!("{:#}", e)));
+        for (k, want) in [("11", None), ("12", Some("bin")), ("13", Some("nf"))] {
+            let mut r = C::GetNoteRequest::default(); r.header.x_want = want.map(|s: &str| s.to_string());
+            println!("{}\t{:?}", k, client.get_note(r).await.map_err(|e| format!("{:#}", e)));
+        }
+        for (k, slug) in [("14", ""), ("15", "ab-1"), ("16", "Not Allowed")] {
+            let mut r = C::GetArticleRequest::default(); r.path.slug = slug.to_string();
+            println!("{}\t{:?}", k, client.get_article(r).await.map_err(|e| format!("{:#}", e)));
+        }
         for (k, pet, page, sort, note, mode) in [
             ("7", C::Pet::Cat(C::Cat { pet_type: C::CatPetType::Cat, lives: Some(9) }), None, None, None, None),
             ("8", C::Pet::Cat(C::Cat { pet_type: C::CatPetType::Feline, lives: None }), Some(3), Some(C::AdoptPetRequestQuerySort::Price), Some("x y".to_string()), Some("slow".to_string())),
@@ -322,6 +355,13 @@ LOOP_EXPECT = {
     "4": 'Ok(Created(Echo { seen: Some("name=\\"n \u00fc\\" qty=Some(3)") }))',
     "5": 'Ok(Ok(Echo { seen: Some("q=\\"a b&c=d\\" limit=Some(5) tenant=Some(\\"t1\\")") }))',
     "6": 'Ok(Ok(Echo { seen: Some("q=\\"\u00fc\\" limit=None tenant=None") }))',
+    "11": 'Ok(Ok("plain \u00fc \\"quoted\\"\\nline"))',
+    "12": "Ok(Accepted([0, 1, 2, 255, 10, 13]))",
+    "13": 'Ok(NotFound(Echo { seen: Some("nf") }))',
+    # either the client refuses the value (validation) or the handler sees it
+    "14": 're:^(Err\\(".*[Vv]alidat.*|Ok\\(Ok\\(Echo \\{ seen: Some\\("slug=\\\\"\\\\""\\) \\}\\)\\))$',
+    "15": 'Ok(Ok(Echo { seen: Some("slug=\\"ab-1\\"") }))',
+    "16": 're:^Err\\(".*[Vv]alidat.*$',
     "7": 'Ok(Ok(Dog(Dog { bark: Some("page=None sort=None note=None mode=None lives=Some(9)"), pet_type: Dog })))',
     "8": 'Ok(Ok(Dog(Dog { bark: Some("page=Some(3) sort=Some(Price) note=Some(\\"x y\\") mode=Some(\\"slow\\") lives=None"), pet_type: Hound })))',
     "9": 'Ok(Ok(Cat(Cat { lives: Some(4), pet_type: Feline })))',
@@ -350,6 +390,6 @@ def loopback_leg(viol):
     rc, outp, errp = ar.run("", timeout=120)
     got = dict(l.split("\t", 1) for l in outp.split("\n") if "\t" in l)
     for k, want in LOOP_EXPECT.items():
-        if got.get(k) != want:
+        if (not re.search(want[3:], got.get(k) or "")) if want.startswith("re:") else got.get(k) != want:
             viol.append((LOOP_SPEC, f"loopback call {k}: the client returns {got.get(k)!r}, the handler was to see / answer {want!r} (rc={rc} {errp[-100:] if not got.get(k) else ''})"))
     return len(LOOP_EXPECT)
